@@ -102,6 +102,8 @@ const THR_WATCHDOG: Duration = Duration::from_secs(10);
 struct H {
     /// (hook point, milliseconds): pause there once, in real time (`OpenBeside`)
     delay: Mutex<Option<(String, u64)>>,
+    /// hook point at which the next hit fails once with an I/O error (`OpenBeside`)
+    fail_once: Mutex<Option<String>>,
     /// producer threads are not scheduled while this is set (`OpenBeside` uses real time instead)
     no_producer_gate: std::sync::atomic::AtomicBool,
     st: Mutex<St>,
@@ -506,6 +508,15 @@ impl Handler for H {
                     *self.delay.lock().unwrap() = None;
                     std::thread::sleep(Duration::from_millis(ms));
                 }
+            }
+        }
+        {
+            let mut f = self.fail_once.lock().unwrap();
+            if f.as_deref() == Some(p.name) {
+                *f = None;
+                drop(f);
+                emit(&self.log, &Event::FaultFired { kind: "fail".into(), point: format!("{}(second open)", p.name), k: 0 });
+                return Err(io::Error::new(io::ErrorKind::Other, format!("injected failure at {}", p.name)));
             }
         }
         if matches!(p.name, "rebuild.asset_start" | "rebuild.before_add" | "rebuild.after_add") && !self.no_producer_gate.load(std::sync::atomic::Ordering::SeqCst) {
@@ -1418,6 +1429,7 @@ fn main() {
     };
     let h = Arc::new(H {
         delay: Mutex::new(None),
+        fail_once: Mutex::new(None),
         no_producer_gate: std::sync::atomic::AtomicBool::new(false),
         st: Mutex::new(St::default()),
         cv: Condvar::new(),
@@ -1425,6 +1437,10 @@ fn main() {
         expected_docs: script.expected_docs,
         log: Mutex::new(log),
     });
+    if std::env::var_os("RUST_LOG").is_some() {
+        // the same logger as the real program (it writes to stderr, which nobody judges)
+        let _ = pretty_env_logger::try_init();
+    }
     anything::verif::install(h.clone());
     h.st.lock().unwrap().prod.main = Some(std::thread::current().id());
     {
@@ -1503,7 +1519,8 @@ fn main() {
                     emit(&h.log, &ev);
                 }
             }
-            Op::OpenBeside { slot, watch_slot, hold_point, hold_ms, ask_after_ms, only } => {
+            Op::OpenBeside { slot, watch_slot, hold_point, hold_ms, ask_after_ms, only, fail_point, advance_s } => {
+                *h.fail_once.lock().unwrap() = fail_point.clone();
                 if shipped_cache.is_none() {
                     match shipped::load(&script.repo) {
                         Ok(s) => shipped_cache = Some(s),
@@ -1531,11 +1548,26 @@ fn main() {
                     // not run beside anything (no watched database, or its type is not Sync): a plain open
                     opened = Some(open_db(&h, *slot, Mode::Disk, &Plan::default()));
                 }
+                *h.fail_once.lock().unwrap() = None;
                 if let Some(ev) = ev {
                     emit(&h.log, &ev);
                 }
+                if *advance_s > 0 {
+                    // let that much time pass on the clocks the program reads, then ask the watched handle again
+                    unsafe {
+                        let f = libc::dlsym(libc::RTLD_DEFAULT, b"verif_clock_advance\0".as_ptr() as *const libc::c_char);
+                        if !f.is_null() {
+                            let f: extern "C" fn(i64) = std::mem::transmute(f);
+                            f(*advance_s as i64);
+                        }
+                    }
+                    if let Some(Some(watched)) = slots.get(*watch_slot) {
+                        let ev = own_words(watched, shipped_cache.as_ref().unwrap(), Perms::Identity, only, None, *watch_slot);
+                        emit(&h.log, &ev);
+                    }
+                }
                 if let Some((db, info)) = opened {
-                    if db.is_none() {
+                    if db.is_none() && fail_point.is_none() {
                         failed_open = true;
                     }
                     emit(&h.log, &Event::Build(info));
